@@ -247,6 +247,42 @@ def array_call(conv, arr):
         return [("e", type(ex).__name__)] * arr.size, None
 
 
+LATE = {"np": 0, "inv_np": 0, "scalar": 0}      # events recorded from results read / calls made again later on
+
+
+def read_again(out):
+    """the elements an array returned earlier holds now"""
+    try:
+        return [("v", o) for o in out.reshape(-1).tolist()]
+    except Exception as ex:
+        return [("e", type(ex).__name__)] * int(np.size(out))
+
+
+def scribble(arr):
+    """the caller goes on using an array it had given to a converter: every element is set to one"""
+    try:
+        if isinstance(arr, np.ndarray) and arr.flags.writeable and arr.size:
+            arr[...] = 1
+    except Exception:
+        pass
+
+
+def few(k, rng, extra=1):
+    """both ends and `extra` seeded positions of a sequence of k elements"""
+    return sorted(set([0, k - 1] + rng.sample(range(k), min(extra, k))))
+
+
+def again_at(idx, small, first, rng):
+    """the positions of a kept result that are read again: the first large array - both ends and a seeded position,
+    the other large ones - both ends, a small one - a seeded position"""
+    return [rng.randrange(len(idx))] if small else few(len(idx), rng, 1 if first else 0)
+
+
+def out_of_order(k, rng):
+    """the last position first, a seeded one, the first position last"""
+    return [k - 1] + rng.sample(range(k), min(1, k)) + [0]
+
+
 def conv_traces(fmt, xs, rng, label, isolate=True, apis=("np", "fix"), shapes=False, plain=False):
     """float -> fixed: scalar, array element and deprecated word for every input, inputs ascending"""
     s, n, f = fmt
@@ -276,19 +312,38 @@ def conv_traces(fmt, xs, rng, label, isolate=True, apis=("np", "fix"), shapes=Fa
     call(lambda: float_to_fix(not s, n + 8, 0)(-1.5))
     rfp = [call(fp, x) for x in xs]
     given = laid_out(np.array(xs, dtype=adt).reshape(shape), rng)
-    rnp = array_call(conv, given)[0] if has_np else None
+    # every array a converter returned is kept, with the inputs it holds position by position and the array given
+    kept = []
+
+    def arr_call(cv, arr, idx, every=True):
+        res, out = array_call(cv, arr)
+        if out is not None:
+            kept.append((list(idx), out, arr, every))
+        return res
+
+    rnp = arr_call(conv, given, range(len(xs)), every=False) if has_np else None
     rfx = [call(fx, x) for x in xs] if fx else None
     X = [enc_dbl(x) for x in xs]
     extra = {}      # index -> results of further array calls holding that input
-    extra_fp = {}   # index -> results of further scalar calls (NumPy scalars as the argument)
+    extra_fp = {}   # index -> results of further scalar calls (NumPy scalars as the argument, calls out of order)
+    extra_fx = {}   # index -> results of further calls of the deprecated function
     if has_np and not plain:
         # the same array object handed to the converter a second time (a few of its elements are recorded)
-        again = array_call(conv, given)[0]
+        again = arr_call(conv, given, range(len(xs)), every=False)
         for i in sorted(set([0, len(xs) - 1] + rng.sample(range(len(xs)), min(3, len(xs))))):
             extra.setdefault(i, []).append(again[i])
+
+        def elsewhere(cv, order):
+            # other inputs at every position (the inputs are distinct) of an array of the large array's shape
+            res = arr_call(cv, np.array([xs[i] for i in order], dtype=adt).reshape(shape), order, every=False)
+            for j in few(len(order), rng, 0):
+                extra.setdefault(order[j], []).append(res[j])
+
+        # ... and at once an array of the same shape holding the inputs in descending order
+        elsewhere(conv, list(range(len(xs)))[::-1])
         # 0-d arrays and NumPy scalars for a few elements
         for i in rng.sample(range(len(xs)), min(3, len(xs))):
-            r0, _ = array_call(conv, np.array(xs[i], dtype=adt))
+            r0 = arr_call(conv, np.array(xs[i], dtype=adt), [i])
             try:
                 r1 = ("v", int(conv(adt(xs[i]))))
             except Exception as ex:
@@ -306,14 +361,42 @@ def conv_traces(fmt, xs, rng, label, isolate=True, apis=("np", "fix"), shapes=Fa
             sub = np.array([xs[i] for i in idx], dtype=adt)
             if len(idx) == 4 and rng.random() < 0.5:
                 sub = sub.reshape(2, 2)
-            res = array_call(conv, laid_out(sub, rng))[0]
+            res = arr_call(conv, laid_out(sub, rng), idx)
             for i, r in zip(idx, res):
                 extra.setdefault(i, []).append(r)
+        # later calls, after arrays of other shapes: the same converter, a second converter of the same format and
+        # converters of other formats with the same element type on arrays of the large array's shape holding other
+        # inputs at every position
+        k = len(xs)
+        elsewhere(conv, list(range(1, k)) + [0])
+        elsewhere(NumpyFloatToFixConverter(bool(s), n, f), list(range(k - 1, k)) + list(range(k - 1)))
+        with np.errstate(all="ignore"):
+            for other in ((bool(s), n, f - 1), (bool(s), n, 0)):
+                call(lambda: NumpyFloatToFixConverter(*other)(np.array(xs[::-1], dtype=adt).reshape(shape)))
+        # the caller changes the arrays it had given; then every result is read again: a result still holds the
+        # conversion of ITS input (the large arrays: both ends, the small ones: a seeded position)
+        for _, _, arr, _ in kept:
+            scribble(arr)
+        for idx, out, _, every in kept:
+            now = read_again(out)
+            for j in again_at(idx, every, out is kept[0][1], rng):
+                extra.setdefault(idx[j], []).append(now[j])
+                LATE["np"] += 1
     # NumPy scalars as the argument of the scalar converter
     for i in rng.sample(range(len(xs)), 0 if plain else min(3, len(xs))):
         extra_fp.setdefault(i, []).append(call(fp, np.float64(xs[i])))
         if adt is np.float32 and safe32(xs[i], f):
             extra_fp[i].append(call(fp, np.float32(xs[i])))
+    if not plain:
+        # the scalar closures called again out of order (the last input first, the first one last), in turns with a
+        # closure of another format
+        turn = float_to_fp(not s, n, f + 1)
+        for i in out_of_order(len(xs), rng):
+            call(turn, xs[i])
+            extra_fp.setdefault(i, []).append(call(fp, xs[i]))
+            LATE["scalar"] += 1
+            if fx:
+                extra_fx.setdefault(i, []).append(call(fx, xs[i]))
 
     def build(idx, apis, lab, more=()):
         evs = []
@@ -327,6 +410,8 @@ def conv_traces(fmt, xs, rng, label, isolate=True, apis=("np", "fix"), shapes=Fa
                     push(evs, "np", [X[i]], r)
             if "fix" in apis and fx:
                 push(evs, "fix", [X[i]], rfx[i])
+                for r in extra_fx.get(i, ()):
+                    push(evs, "fix", [X[i]], r)
         return close(fmt, evs + list(more), fx, lab, shape=list(shape))
 
     # formats wider than a double's mantissa (64-bit: 2^63 signed / 2^64 unsigned): inputs whose scaled value reaches
@@ -354,7 +439,7 @@ def wider(s, n, rng):
     return rng.choice(opts) if opts else None
 
 
-def inv_traces(fmt, vs, label, isolate=True, apis=("np", "fix"), rng=None, shapes=False):
+def inv_traces(fmt, vs, label, isolate=True, apis=("np", "fix"), rng=None, shapes=False, plain=False):
     """fixed -> float -> fixed: scalar, arrays, deprecated word functions"""
     s, n, f = fmt
     nb = n - 1 if s else n
@@ -376,24 +461,43 @@ def inv_traces(fmt, vs, label, isolate=True, apis=("np", "fix"), rng=None, shape
         r = call(to_f, v)
         sc.append((r, call(back, r[1]) if r[0] == "v" else r))
     more = {}       # index -> further (float, back) pairs from other array calls holding that value
+    kept = []       # (values held position by position, floats returned, values returned on the way back, arrays given)
     if has_np:
         # the array in a seeded shape of 1-3 dimensions and memory layout
         arr = laid_out(np.array(vs, dtype=DTYPES[(s, n)]).reshape(shape_for(len(vs), rng)), rng)
-        fl, fl_arr = array_call(to_f_np, arr)
-        if fl_arr is not None:
+
+        def there_and_back(given, idx, cv_f, cv_b):
+            fl, fl_out = array_call(cv_f, given)
+            if fl_out is None:
+                return fl, fl
             # (back through the array converter in another shape and memory layout; the flattened order is the same)
-            fl_arr = fl_arr.reshape(-1)
+            fl_arr = fl_out.reshape(-1)
             if fl_arr.size >= 4 and fl_arr.size % 2 == 0:
                 fl_arr = np.asfortranarray(fl_arr.reshape(2, fl_arr.size // 2))
             elif fl_arr.size:
                 fl_arr = np.repeat(fl_arr, 2)[::2]
-            bk, _ = array_call(back_np, fl_arr)
-        else:
-            bk = fl
+            bk, bk_out = array_call(cv_b, fl_arr)
+            kept.append((list(idx), fl_out, bk_out, [given, fl_arr], False))
+            return fl, bk
+
+        fl, bk = there_and_back(arr, range(len(vs)), to_f_np, back_np)
+
+        def elsewhere(cv_f, cv_b, order):
+            # other values at every position (the values are distinct) of an array of the large array's shape
+            given = np.array([vs[i] for i in order], dtype=DTYPES[(s, n)]).reshape(arr.shape)
+            f2, b2 = there_and_back(given, order, cv_f, cv_b)
+            for j in few(len(order), rng, 0):
+                more.setdefault(order[j], []).append((f2[j], b2[j]))
+
+        if not plain:
+            # ... and at once an array of the same shape holding the values in descending order
+            elsewhere(to_f_np, back_np, list(range(len(vs)))[::-1])
 
         def both(idx, arr2):
             f2, f2_arr = array_call(to_f_np, arr2)
-            b2 = array_call(back_np, f2_arr)[0] if f2_arr is not None else f2
+            b2, b2_arr = array_call(back_np, f2_arr) if f2_arr is not None else (f2, None)
+            if f2_arr is not None:
+                kept.append((list(idx), f2_arr, b2_arr, [arr2], True))
             for i, p, q in zip(idx, f2, b2):
                 more.setdefault(i, []).append((p, q))
 
@@ -413,6 +517,30 @@ def inv_traces(fmt, vs, label, isolate=True, apis=("np", "fix"), rng=None, shape
         again = array_call(to_f_np, arr)[0]
         for i in idx:
             more.setdefault(i, []).append((again[i], bk[i]))
+        if not plain:
+            # later calls, after arrays of other shapes and types: the same converters, second converters of the same
+            # formats and converters of other formats on arrays of the large array's shape holding other values at
+            # every position
+            k = len(vs)
+            elsewhere(to_f_np, back_np, list(range(1, k)) + [0])
+            elsewhere(NumpyFixToFloatConverter(f), NumpyFloatToFixConverter(bool(s), n, f), [k - 1] + list(range(k - 1)))
+            with np.errstate(all="ignore"):
+                rev = np.array(vs[::-1], dtype=DTYPES[(s, n)]).reshape(arr.shape)
+                for other in (f - 1, 0):
+                    back_o = NumpyFloatToFixConverter(bool(s), n, other)
+                    call(lambda: back_o(NumpyFixToFloatConverter(other)(rev)))
+            # the caller changes the arrays it had given; then every result is read again: a result still holds the
+            # conversion of ITS input (the large arrays: both ends, the small ones: a seeded position)
+            for entry in kept:
+                for given in entry[3]:
+                    scribble(given)
+            for idx, f_out, b_out, _, every in kept:
+                fnow = read_again(f_out)
+                bnow = read_again(b_out) if b_out is not None else None
+                for j in again_at(idx, every, f_out is kept[0][1], rng):
+                    if bnow is not None:
+                        more.setdefault(idx[j], []).append((fnow[j], bnow[j]))
+                        LATE["inv_np"] += 1
     else:
         apis = tuple(a for a in apis if a != "np")
     mask = (1 << n) - 1
@@ -421,6 +549,19 @@ def inv_traces(fmt, vs, label, isolate=True, apis=("np", "fix"), rng=None, shape
         for v in vs:
             r = call(kb, v & mask)
             dp.append((r, call(bt, r[1]) if r[0] == "v" else r))
+    # the scalar closures called again out of order (the last value first, the first one last), in turns with closures
+    # of another format
+    sc_more, dp_more = {}, {}
+    if not plain:
+        turn_f, turn_b = fp_to_float(f + 1), float_to_fp(not s, n, f + 1)
+        for i in out_of_order(len(vs), rng):
+            call(lambda: turn_b(turn_f(vs[i])))
+            r = call(to_f, vs[i])
+            sc_more.setdefault(i, []).append((r, call(back, r[1]) if r[0] == "v" else r))
+            LATE["scalar"] += 1
+            if dp:
+                r = call(kb, vs[i] & mask)
+                dp_more.setdefault(i, []).append((r, call(bt, r[1]) if r[0] == "v" else r))
 
     def build(idx, apis, lab, extra_ev=()):
         evs = []
@@ -431,6 +572,11 @@ def inv_traces(fmt, vs, label, isolate=True, apis=("np", "fix"), rng=None, shape
                 evs.append(["raise", "inv_fp", V, rx[1] if rx[0] == "e" else rb[1]])
                 continue
             evs.append(["inv_fp", V, enc_dbl(rx[1]), enc_int(rb[1])])
+            for (rx, rb) in sc_more.get(i, ()):
+                if rx[0] == "e" or rb[0] == "e":
+                    evs.append(["raise", "inv_fp", V, rx[1] if rx[0] == "e" else rb[1]])
+                else:
+                    evs.append(["inv_fp", V, enc_dbl(rx[1]), enc_int(rb[1])])
             if "np" in apis:
                 for (p, q) in [(fl[i], bk[i])] + more.get(i, []):
                     if p[0] == "e" or q[0] == "e":
@@ -438,11 +584,11 @@ def inv_traces(fmt, vs, label, isolate=True, apis=("np", "fix"), rng=None, shape
                     else:
                         evs.append(["inv_np", V, enc_dbl(p[1]), enc_int(q[1])])
             if "fix" in apis and dp:
-                (dx, db) = dp[i]
-                if dx[0] == "e" or db[0] == "e":
-                    evs.append(["raise", "inv_fix", V, dx[1] if dx[0] == "e" else db[1]])
-                else:
-                    evs.append(["inv_fix", V, enc_int(vs[i] & mask), enc_dbl(dx[1]), enc_int(db[1])])
+                for (dx, db) in [dp[i]] + dp_more.get(i, []):
+                    if dx[0] == "e" or db[0] == "e":
+                        evs.append(["raise", "inv_fix", V, dx[1] if dx[0] == "e" else db[1]])
+                    else:
+                        evs.append(["inv_fix", V, enc_int(vs[i] & mask), enc_dbl(dx[1]), enc_int(db[1])])
         return close(fmt, evs + list(extra_ev), bool(dp), lab)
 
     far = [i for i, v in enumerate(vs) if isolate and nb >= 54 and v > 0 and float(v) >= 2.0 ** nb]
@@ -587,6 +733,9 @@ def run(chk):
               sum(1 for t in traces if "/top/" in t["label"]))
     chk.count("events", sum(t["n"] for t in traces))
     chk.count("arrays without elements (shape events)", sum(1 for t in traces for e in t["ev"] if e[0] == "npshape"))
+    chk.count("elements of float->fixed array results read again after later calls", LATE["np"])
+    chk.count("elements of fixed->float->fixed array results read again after later calls", LATE["inv_np"])
+    chk.count("scalar closures called again out of order", LATE["scalar"])
     chk.count("formats with n_frac beyond n_bits + 4 or below -5", sum(1 for t in fmts if t[2] > t[1] + 4 and t[2] not in (25, 30, 40) or t[2] < -5))
     chk.rule = ("formats: signed/unsigned x n_bits 8/16/32/64 x n_frac 0..n_bits, n_bits+1, n_bits+4 (quick: a seeded half "
                 "of the n_frac of the 32/64-bit formats), plus scalar-only widths 9..60 with five n_frac each. Inputs per format: +-0, values at, half/quarter a step and one/two "
@@ -602,7 +751,14 @@ def run(chk):
                 "kind of element only (all inside / all below / all above the range, one element); arrays without elements "
                 "(shape events); NumPy float64/float32 scalars through float_to_fp; the fixed->float array converter on "
                 "arrays of 1-3 dimensions in several layouts, on wider integer types, 0-d arrays and NumPy scalars; other "
-                "converters created and used between creating and using the ones under test. non-trivial conversion = the "
+                "converters created and used between creating and using the ones under test. Histories of calls on one "
+                "converter object: every array a converter returned is kept and read AGAIN (recorded as further np / inv_np "
+                "events of its input) after later calls - at once on an array of the same shape holding other values, on "
+                "0-d arrays, NumPy scalars and small arrays of other shapes, on same-shaped arrays once more, on a second "
+                "converter of the same format and on converters of other formats with the same element type - and after "
+                "the caller has overwritten the arrays it had given; both array converters. The scalar closures "
+                "(float_to_fp, fp_to_float, the deprecated pair) are called again out of order (last input first, first "
+                "one last) in turns with closures of another format. non-trivial conversion = the "
                 "scaled value is not an integer inside the range; distinct = distinct (format, input)")
     chk.exhaustive = False
     chk.assumptions += [
@@ -625,7 +781,7 @@ def selftest(chk):
     fmt = (1, 8, 4)
     both = conv_traces(fmt, [-9.0, -0.53, 0.3, 7.99, 8.0], rng, "selftest", shapes=True, plain=True)
     good, empty = both[0], both[1]
-    inv = inv_traces(fmt, [-128, -3, 0, 5, 127], "selftest")[0]
+    inv = inv_traces(fmt, [-128, -3, 0, 5, 127], "selftest", plain=True)[0]
 
     def mut(base, f, n=None):
         t = dict(base)
